@@ -819,11 +819,25 @@ fn main() {
         let sup = vec![r(-1); n - 1];
         inits.push(St { t: mk(&sub, &main, &sup), sub, main, sup });
     }
+    // start objects that come from `new( n )` (all zero) with the main diagonal written through the index operator: whatever `new` and the
+    // index operator keep as bookkeeping ("off-diagonals known to be zero") is in place before the first off-diagonal write (round 16)
+    for n in [3usize, 2] {
+        let mut t = Tridiagonal::<Rat>::new(n);
+        for i in 0..n {
+            t[(i, i)] = r(2);
+        }
+        inits.push(St { t, sub: vec![r(0); n - 1], main: vec![r(2); n], sup: vec![r(0); n - 1] });
+    }
     explore(&ctx, "tridiagonal histories n<=3", inits.clone(), BfsOpts { max_depth: depth, state_cap: ctx.pick(1_000_000, 20_000_000) });
     if ctx.quick() {
         crosscheck_stateright(&ctx, "tridiagonal histories n<=3", inits.clone(), depth);
     }
-    explore_replayed(&ctx, "clone-free histories on one Tridiagonal<Rat>", inits, BfsOpts { max_depth: ctx.pick(4, 5), state_cap: 2_000_000 });
+    explore_replayed(&ctx, "clone-free histories on one Tridiagonal<Rat>", inits.clone(), BfsOpts { max_depth: ctx.pick(4, 5), state_cap: 2_000_000 });
+    // the same without the read-only queries between the steps: a solve() between two writes re-validates lazily kept bookkeeping
+    // (a "known diagonal" flag, a pending slot) and hides a write that forgot to invalidate it (round 16)
+    mc::bfs::WARM.store(false, std::sync::atomic::Ordering::SeqCst);
+    explore_replayed(&ctx, "clone-free histories on one Tridiagonal<Rat>, no queries between the steps", inits, BfsOpts { max_depth: ctx.pick(4, 5), state_cap: 2_000_000 });
+    mc::bfs::WARM.store(true, std::sync::atomic::Ordering::SeqCst);
     // (1) Tridiagonal<Complex<f64>>::solve with a pivot beyond |z| ~ 1e154 / below 1e-162 (unscaled complex division, see C01):
     // repaired by 8d587e4, demanded now. Known findings: (2) the three-term determinant recurrence forms sub * sup first, which over- / underflows for entries 2^+-600 although the
     // determinant (and the dense twin's value) is representable.
